@@ -1530,6 +1530,15 @@ def m_strchr(it, args, e):
     return None if i is None else Ptr(s.obj, s.path[:-1] + (s.path[-1] + i,))
 
 
+def m_reallocarray(it, args, e):
+    """xreallocarray(p, n, size) / reallocarray: abstract objects are unbounded, so growing keeps the object (and its contents) and a null
+    pointer yields a fresh indexable object"""
+    p = args[0]
+    if p is None:
+        return Ptr(Obj('heap-array@%s' % (e.get('line') if isinstance(e, dict) else '?'), 'heap'), (0,))
+    return p
+
+
 def m_strstr(it, args, e):
     s, n = args
     hay = bytes(read_cstr(it, s)); nd = bytes(read_cstr(it, n))
@@ -1624,7 +1633,7 @@ def m_noop(it, args, e):
 DEFAULT_MODELS = {
     'exit': m_terminal('exit'), '_Exit': m_terminal('exit'), 'abort': m_terminal('abort'),
     '__assert_fail': m_assert_fail,
-    'malloc': m_alloc, 'xmalloc': m_alloc, 'calloc': m_alloc,
+    'malloc': m_alloc, 'xmalloc': m_alloc, 'calloc': m_alloc, 'xreallocarray': m_reallocarray, 'reallocarray': m_reallocarray,
     'free': m_free, 'memset': m_memset,
     'strlen': m_strlen, 'strcmp': m_strcmp, 'strncmp': m_strncmp, 'memcmp': m_memcmp,
     'strchr': m_strchr, 'strrchr': m_strrchr, 'strstr': m_strstr, 'strpbrk': m_strpbrk, '__errno_location': m_errno_location,
